@@ -21,7 +21,16 @@ func WalkSchemaFields(root RootSchema, asClient bool, callback WalkCallback) err
 	return nil
 }
 
-func walkSchemaFields(root RootSchema, asClient bool, callback WalkCallback, path []string) error {
+func walkSchemaFields(root RootSchema, asClient bool, callback WalkCallback, path []string, within ...string) error {
+	// A schema which (directly or not) contains itself is walked once on
+	// each path: the field leading back is reported, but not entered again.
+	rootName := root.FullName()
+	for _, outer := range within {
+		if outer == rootName {
+			return nil
+		}
+	}
+	within = append(within[:len(within):len(within)], rootName)
 
 	var properties PropertySet
 	switch rt := root.(type) {
@@ -50,11 +59,11 @@ func walkSchemaFields(root RootSchema, asClient bool, callback WalkCallback, pat
 
 		switch st := prop.Schema.(type) {
 		case *ObjectField:
-			if err := walkSchemaFields(st.Ref.To, asClient, callback, propPath); err != nil {
+			if err := walkSchemaFields(st.Ref.To, asClient, callback, propPath, within...); err != nil {
 				return err // not wrapped, the path is already in the error above
 			}
 		case *OneofField:
-			if err := walkSchemaFields(st.Ref.To, asClient, callback, propPath); err != nil {
+			if err := walkSchemaFields(st.Ref.To, asClient, callback, propPath, within...); err != nil {
 				return err // not wrapped, the path is already in the error above
 			}
 		}
